@@ -4,7 +4,7 @@ use clap::Parser;
 #[command(author, version, about, long_about)]
 struct Args {
     /// Program via command line argument
-    #[arg(short, long)]
+    #[arg(short, long, allow_hyphen_values = true)]
     command: Option<String>,
     /// Script to run
     script: Option<String>,
